@@ -379,6 +379,103 @@ def registration_leg(params, res):
         ecmod.randrange = old_rr
 
 
+def connect_leg(params, res):
+    """the master's own connect() builds the program table (only the
+    datagram endpoint and the netlink attach are replaced); groups are
+    registered with the random group number walking through the ends of
+    whatever range the library asks for; for every number handed out a fresh
+    frame of the group goes through the real dispatcher: the group's
+    program must run"""
+    import asyncio
+    import os
+    import ebpfcat.ebpfcat as ecmod
+    from .. import aio, bus, ecat
+    from ebpfcat.ebpfcat import FastEtherCat, FastSyncGroup, SyncManager
+
+    class Tr:
+        _sock = bus.FakeSock()
+
+        def get_extra_info(self, n, d=None):
+            return self._sock if n == "socket" else d
+
+        def sendto(self, *a):
+            pass
+
+        def close(self):
+            pass
+    picks = []
+
+    def boundary(a, b=None):
+        lo, hi = (0, a) if b is None else (a, b)
+        picks.append((lo, hi))
+        ends = [lo, lo + 1, hi - 1, hi - 2, (lo + hi) // 2]
+        return ends[(len(picks) - 1) % len(ends)]
+    out = []
+
+    async def main(loop):
+        ec = FastEtherCat("lo")
+
+        async def endpoint(factory, **kw):
+            p_ = factory()
+            t_ = Tr()
+            p_.connection_made(t_)
+            return t_, p_
+        loop.create_datagram_endpoint = endpoint
+
+        async def attach(self, *a, **k):
+            self.load(log_level=1)
+        old_attach, old_rr = ecmod.EtherXDP.attach, ecmod.randrange
+        ecmod.EtherXDP.attach = attach
+        ecmod.randrange = boundary
+        try:
+            await ec.connect()
+            for n in range(10):
+                t, v = ecat.make_terminal(ec, 1 + n, [("H",)], [("H",)],
+                                          use_fmmu=False)
+                dev = dispatch.CountDev(v[SyncManager.IN, 0],
+                                        v[SyncManager.OUT, 0])
+                sg = FastSyncGroup(ec, [dev])
+                sg.allocate()
+                with ec.register_sync_group(sg) as idx:
+                    sg.wkc_errors = 1
+                    frame = dispatch.ETH + bytes(
+                        sg.packet.sterile(idx, dispatch.USER_ETHERTYPE))
+                    runs = []
+                    for _ in range(3):
+                        ret, o, _d = kern.test_run(
+                            ec.ebpf.file_descriptor, frame)
+                        runs.append((ret, dev.runs))
+                    out.append((idx, picks[-1], runs))
+        finally:
+            ecmod.EtherXDP.attach, ecmod.randrange = old_attach, old_rr
+            for fd in (getattr(ec, "programs", None),):
+                try:
+                    if isinstance(fd, int):
+                        os.close(fd)
+                except OSError:
+                    pass
+    try:
+        aio.run(main)
+    except aio.WallClock:
+        res.inconc("connect leg: wall-clock watchdog")
+        return
+    except Exception as ex:
+        res.violation("unexplained:connect-leg-raised",
+                      f"{type(ex).__name__}: {str(ex)[:200]}",
+                      case=dict(connect_leg=True, picks=picks[-3:]))
+        return
+    for idx, rng_, runs in out:
+        res.case(["connect", idx, rng_], nontrivial=True)
+        res.count("groups_registered_through_the_master's_own_table")
+        if not any(r for _, r in runs):
+            res.violation(
+                "unexplained:registered-program-never-runs",
+                f"a group was registered under number {idx} (drawn from "
+                f"{rng_}); three fresh frames of it went through the "
+                f"dispatcher (actions {[a for a, _ in runs]}) and its "
+                f"program never ran", case=dict(connect_leg=True, number=idx))
+
+
 def migration_leg(params, res):
     """closed loop in the kernel only, no state is injected: two frames of a
     registered group circulate in wire order (the bus answers every enabled
@@ -473,6 +570,7 @@ def run_shard(params):
         return res
     if params.get("registration"):
         registration_leg(params, res)
+        connect_leg(params, res)
         return res
     if params.get("foreign"):
         foreign_leg(params, res)
